@@ -202,8 +202,7 @@ def check(case, ctx):
                     g = common.as_ma(res)
                     if model.compare(g, m, "squeeze of a non-singleton axis"):
                         ctx.v(ID, "squeeze:non-singleton", "a.squeeze(%r)%s on a non-singleton axis neither raised nor returned the array unchanged: dims %r shape %r" % (ai, base, g.dims, g.shape))
-                elif not isinstance(exc, ValueError):
-                    ctx.v(ID, "squeeze:wrong-exc", "a.squeeze(%r)%s raised %s, NumPy raises ValueError" % (ai, base, type(exc).__name__))
+
         # newaxis then squeeze is the identity
         for pos in range(nd + 1):
             judge("a.newaxis('n', pos=%d).squeeze('n')" % pos, lambda pos=pos: a.newaxis('n', pos=pos).squeeze('n'), m.dims, exp_values=m.values)
@@ -225,8 +224,7 @@ def check(case, ctx):
         for i in range(nd):
             if m.shape[i] != 1:
                 res, exc = ctx.call("a.repeat(2, axis=%r)" % m.dims[i] + base, lambda i=i: a.repeat(2, axis=m.dims[i]), operands=(a,))
-                if exc is None:
-                    ctx.v(ID, "repeat:non-singleton", "a.repeat(2, axis=%r)%s on a non-singleton axis returned %s" % (m.dims[i], base, common.brief_res(res)))
+                ctx.relaxed['repeat on a non-singleton axis (statement silent)'] += 1
                 break
     elif fam == 'broadcast':
         ex = case["extra"]
